@@ -137,11 +137,23 @@ def witnesses(ck):
         shuffled = df.iloc[perm].copy()
         shuffled.index = [100 + 7 * int(i) for i in perm]
         extra = df.assign(unbenutzte_spalte_xyz=1.0)
+        # losslessly convertible dtype variant (integer columns stored as float64, as after read_csv / a merge)
+        as_float = shuffled.copy()
+        for c in ("alter", "hh_id", "p_id_elternteil_1"):
+            if c in as_float.columns:
+                as_float[c] = as_float[c].astype("float64")
         for label, data, kw, order in (("debug=True", df, {"debug": True}, numpy.arange(n)),
+                                       ("integer columns stored as float64 + permuted rows + sparse index", as_float, {}, perm),
+                                       ("integer columns stored as float64 + permuted rows + sparse index + debug", as_float, {"debug": True}, perm),
                                        ("permuted rows + sparse index", shuffled, {}, perm),
                                        ("permuted rows + sparse index + debug", shuffled, {"debug": True}, perm),
                                        ("unused extra column", extra, {}, numpy.arange(n))):
-            out = run(data, targets, **kw)
+            try:
+                out = run(data, targets, **kw)
+            except Exception as e:   # noqa: BLE001
+                bad.append(f"{label}: raises {type(e).__name__}: {e}"[:200])
+                runs += 1
+                continue
             runs += 1
             if len(out) != n:
                 bad.append(f"{label}: {len(out)} rows for {n} input rows")
@@ -150,7 +162,7 @@ def witnesses(ck):
                 if not numpy.allclose(out[t].to_numpy(dtype=float), base[t].to_numpy(dtype=float)[order], rtol=0, atol=1e-9, equal_nan=True):
                     bad.append(f"{label}: {t} differs per person from the plain run")
                     break
-            if kw.get("debug") and "p_id" in out.columns and list(out["p_id"]) != list(data["p_id"]):
+            if kw.get("debug") and "p_id" in out.columns and [int(x) for x in out["p_id"]] != [int(x) for x in data["p_id"]]:
                 bad.append(f"{label}: input columns are not in input order")
     ck.extra["integration_witness_runs"] = runs
     if not bad:
